@@ -73,7 +73,9 @@ def run(ctx):
       'workers; 1-4 tasks; one failing task at each listed index with and '
       'without ignore_failures; push and pull heartbeat environments), default '
       'schedule, virtual time; the same for sharded pipelines (1-2 workers, 1-3 '
-      'shards, retry thresholds 0/1/default). A case = one complete run; distinct = distinct '
+      'shards, retry thresholds 0/1/default); fault-free runs of as_completed '
+      'with every subset of <= 2 (thorough 3) late replies (2-3 workers, 2-4 '
+      'tasks). A case = one complete run; distinct = distinct '
       '(configuration, fault placement).')
   ctx.assumptions += [
       'fake transport: a call runs its handler at most once; deadline errors '
@@ -84,6 +86,16 @@ def run(ctx):
       'next_batch_from_generator',
   ]
   explorer.explore_all(ctx, MODULE, cfgs, pre_bound=-1, dev_bound=dev)
+  # fault-free, but replies arrive in any order: every subset of <= 2 (3) task
+  # calls answers only after everything else has run as far as it can (one task
+  # finishes while two others still run, ...)
+  late = [('as_completed', dict(W=W, T=T, menu=['slow-reply'], push=push))
+          for push in (True, False) for W, T in ((2, 2), (2, 3), (3, 3), (3, 4))]
+  late += [('as_completed', dict(W=3, T=3, bad=2, ignore=ign,
+                                 menu=['slow-reply'])) for ign in (False, True)]
+  explorer.explore_all(ctx, MODULE, late, pre_bound=-1,
+                       dev_bound=2 if ctx.quick else 3)
+  ctx.notes['late_reply_configurations'] = len(late)
   shc = sharded_configs(ctx.tier)
   explorer.explore_all(ctx, MODULE, shc, pre_bound=-1, dev_bound=dev,
                        split=0 if ctx.quick else 8)
